@@ -1,14 +1,15 @@
 From Coq Require Import List NArith String Ascii Bool.
-From WX Require Import Base.Show Cli.OnBusy.
+From WX Require Import Base.Show Gen.CliOnBusy_gen Cli.OnBusy Cli.OnBusyTable.
 Import ListNotations.
 Open Scope string_scope.
 
 Definition show_act (a : act) : string :=
   match a with
   | AChange => "chg" | AStart => "start" | ASignal s => "sig" ++ show_N s | AStopStart s => "stop" ++ show_N s ++ "+start" | AExit => "exit"
+  | ABad => "BAD"
   end.
 Definition mode_of (n : N) : mode := match n with 0%N => MDoNothing | 1%N => MQueue | 2%N => MRestart | _ => MSignal end.
-(* events: true = change batch, false = the running command exits *)
-Definition eval_onbusy (m : N) (restart : bool) (sig stop : option N) (postpone : bool) (es : list bool) : string :=
+(* events: 0 = change batch, 1 = the running command exits, 2 = change batch whose calls are processed after the command ended *)
+Definition eval_onbusy (m : N) (restart : bool) (sig stop : option N) (postpone : bool) (es : list N) : string :=
   let o := mkO (mode_of m) restart sig stop postpone in
-  show_list show_act (rev (log (run o (map (fun b : bool => if b then Change else Exit) es)))).
+  show_list show_act (rev (log (OnBusy.run T o (map (fun b : N => match b with 0%N => Change false | 1%N => Exit | _ => Change true end) es)))).
